@@ -261,6 +261,8 @@ Proof.
   - (* ExtAlpha *)
     inversion W; subst b'. simpl. eexists. split; [reflexivity|]. split; [|reflexivity].
     apply (ext_BInv b s); [|repeat split; auto]. exists []. simpl. auto.
+  - (* Rollback: not a call of a well-bracketed sequence (see C16_rollback.v) *)
+    discriminate.
 Qed.
 
 Lemma run_BInv ops : forall b b' s,
